@@ -983,6 +983,47 @@ def exprList : Mode → List Node → Bool
   | m, n :: r => allowed m (kindFn n) && exprNode n && exprList m r
 end
 
+/-! ## What printing forgets, and what the token level needs -/
+
+mutual
+/-- The list that printing and parsing back produces: kern kinds, glue kinds, mark contents
+and the glue set of a vbox have no syntax and come back as their defaults. -/
+def normNode : Node → Node
+  | .char c f => .char c f
+  | .glue _ w st sto sh sho => .glue 0 w st sto sh sho
+  | .kern _ w => .kern 0 w
+  | .penalty p => .penalty p
+  | .rule h w d => .rule h w d
+  | .lig c o f l r => .lig c o f l r
+  | .disc pre post rc => .disc (normList pre) (normList post) rc
+  | .hbox h w d s g o l => .hbox h w d s g o (normList l)
+  | .vbox h w d s _ l => .vbox h w d s false (normList l)
+  | .mark _ => .mark 0
+  | .adjust l => .adjust (normList l)
+  | .ins b h md w st sto sh sho fp l => .ins b h md w st sto sh sho fp (normList l)
+  | .math a => .math a
+def normList : List Node → List Node
+  | [] => []
+  | n :: r => normNode n :: normList r
+end
+
+mutual
+/-- What the *token level* round trip needs (the dimension and integer ranges of `exprNode`
+are needed only when tokens become text). -/
+def reprNode : Node → Bool
+  | .char _ font => decide (font < 4294967296)
+  | .lig _ _ font _ _ => decide (font < 4294967296)
+  | .disc pre post rc => reprList .D pre && reprList .D post && decide (rc < 4294967296)
+  | .hbox _ _ _ _ ratio _ l => decide (0 ≤ ratio) && decide (ratio ≤ maxDimen) && reprList .H l
+  | .vbox _ _ _ _ _ l => reprList .V l
+  | .adjust l => reprList .V l
+  | .ins box _ _ _ _ _ _ _ fp l => decide (box < 256) && decide (fp < 4294967296) && reprList .V l
+  | _ => true
+def reprList : Mode → List Node → Bool
+  | _, [] => true
+  | m, n :: r => allowed m (kindFn n) && reprNode n && reprList m r
+end
+
 /-- Sizes for fuel. -/
 def tokFuel (toks : List BTok) : Nat := toks.length + 1
 
